@@ -731,6 +731,7 @@ def run_twice(case, ctx, rnd):
             except Exception as e:
                 ctx.skip("pipeline output does not save: %s" % type(e).__name__)
                 continue
+            loaded = set(font.tables)
             try:
                 font.saveXML(io.StringIO())
             except (CaseTimeout, MemoryError):
@@ -738,6 +739,12 @@ def run_twice(case, ctx, rnd):
             except Exception:
                 ctx.note("saveXML of pipeline output raised (not this property)")
             try:
+                if set(font.tables) != loaded:
+                    # the dump decompiled tables that save #1 had copied raw (the pipeline returned a lazily
+                    # loaded font): later saves recompile them - again C01's comparison, not purity.  The
+                    # loaded set is stable now: judge the two saves that follow the dump.
+                    ctx.note("dump loaded further tables; judging the two saves after it")
+                    a = corpus.save_bytes(font)
                 b = corpus.save_bytes(font)
                 err = None
             except (CaseTimeout, MemoryError):
